@@ -282,3 +282,10 @@ pub fn replay(_part: &str, bytes: &[u8], case: &Value, stats: &mut Stats) -> Ver
     }
     check(bytes, stats)
 }
+
+/// Byte-level entry for the fuzz target (same decoder, same oracle, quick-tier reference cap).
+pub fn fuzz_entry(bytes: &[u8]) -> Verdict {
+    REF_CAP.with(|c| c.set(40_000));
+    let mut st = Stats::new();
+    check(bytes, &mut st)
+}
